@@ -359,7 +359,9 @@ BOUNDS = ("full-core mini reactor, 4 occupied cells (centre, ring 2 x2, ring 3) 
           "[FUEL] (middle block)}")
 
 
-@harness("C14", bounds=BOUNDS + "; K=1 over the full action set (ordered swaps, all 3- and 4-cascades, cascades with None entries, discharge, remove); "
+@harness("C14", bounds=BOUNDS + "; K=1 over the full action set (ordered swaps, all 3- and 4-cascades, cascades with None entries, discharge, remove, "
+                                "purge = removeAssembly(discharge=False)), or over the reduced / wide set for the instances that say so "
+                                "(top / middle / bottom+top stationary blocks, an assembly stored in the pool from the start); "
                                 "quick: one shared symbol for all grid-plate heights (no fork on the top-elevation "
                                 "comparison), thorough: independent heights",
          stubs=STUBS, qtimeout_ms=20000, max_paths=3000,
@@ -387,7 +389,7 @@ def every_single_operation_keeps_the_books(ctx, track, stat, shared, level="full
 
 
 @harness("C14", bounds=BOUNDS + "; K steps over a reduced action set (K=2 quick, K=3 thorough; thorough also K=2 "
-                                "over ordered swaps + all 3-cascades + discharge / remove / add); shared grid-plate height; state checked at the end of every history "
+                                "over ordered swaps + all 3-cascades + discharge / remove / purge / add; reduced set: one purge, with tracking on only); shared grid-plate height; state checked at the end of every history "
                                 "(prefix-closed, so after every step)",
          stubs=STUBS, qtimeout_ms=20000, max_paths=4000,
          instances={"quick": [dict(track=t, stat=s, K=2, level="reduced") for t in (True, False)
